@@ -31,7 +31,17 @@ probe 180, shutdown 60, term 60, staleRunLock 60; for `sb`: booting 100, probe 3
   o1 <st<u>|pa<u/…|->|sd<u>,…>                                 runner objects of one Idle run-mode worker: StartContainer (the
      `crunch-run --detach` stays outstanding), probe applied with the listed uuids, completion of the outstanding start
      → `<S> sg=<…> rg=<…> ex=<…>`, or `panic close of closed channel` (cannot happen since the fix of F15a)
+  pl <S> <b> <starting> <running> <givenup> <boot 0|1> <stale n|y|o> <line/line/…>   a whole probeAndUpdate whose
+     `crunch-run --list` exits 0 printing the lines: u<n> = "<uuid n>", s<n> = "<uuid n> stale", b = "broken", e = "",
+     x<n> = "<uuid n> something else"; staleRunLockSince before: n zero / y just set / o set 120 ago → as `pr`
+  tp <f|s|x …>   the real Pool.runProbes loop (probeInterval 1 ms) over one held Idle worker per letter whose
+     `crunch-run --list` answers at once / slowly (ticks are dropped meanwhile) / fails → `rounds>=3`: every worker was
+     probed at least three times (the loop never stalls: `Driven` can always be continued, C15_tick_loop)
 Scheduler response ops:
+  lc <item,item,…>   goroutine bodies run to completion one after the other on one Scheduler: <l|c|k|r><u>:<state|->:<api 0|1>
+     = lockContainer / cancel / kill / requeue of container u while queue.Get reports the state (- = unknown to the queue)
+     and the API call succeeds / fails; h<u> / f<u> = the case takes / frees the latch of u (an operation in flight)
+     → per item `<calls joined by .>|w<wake-up armed>` (`-` for h/f), joined by ',', then ` latch=<u/…>` (held at the end)
   sw <entries> <running> <qupdated> <anyunknown> <latched>       one sync pass (formats of C14 `sy`) → `forgets;effects;wake=<0|1>`
   fl <tl 0|1> <snap;snap;…>   snap = <unknown 0|1>~<entries>~<running u,…>   fixStaleLocks; every wait ends by a pool
      notification, except that with tl=1 the wait after the last snapshot ends by the timeout → `un=<u/…>`
@@ -40,6 +50,8 @@ Scheduler response ops:
 import ArvVerif.Base.Loop
 import ArvVerif.Model.C15
 import ArvVerif.Model.C15_O1
+import ArvVerif.Model.C15_Glue
+import ArvVerif.Model.C15_Tick
 open ArvVerif ArvVerif.C14 ArvVerif.C15
 
 namespace C15Drv
@@ -86,8 +98,40 @@ def mkWorker (st : WState) (ib : IdleB) (sg rg : List Nat) : Worker :=
 
 def destroys (w w' : Worker) : Nat := if w'.state == .shutdown && w'.updated != w.updated then 1 else 0
 
+def showProbe (w : Worker) (gu : List Nat) (pi : ProbeIn) : String :=
+  let r := probeAndUpdate w T0 gu pi 1000
+  let p := mkProbe w T0 gu pi
+  let ran := w.state != .shutdown && (p.booted || w.state == .unknown) && pi.listOk
+  let slAfter := if ran then (staleAfter pi).isSome else pi.staleFor.isSome
+  s!"{showWS r.1.state}{showIB r.1.idleB} sg={showUs (sortNat r.1.starting)} rg={showUs (sortNat r.1.running)} ex={showUs (sortNat r.2)} d={destroys w r.1} sl={b2s slAfter}"
+
+def parseLine (s : String) : Option ProbeLine :=
+  match s.toList with
+  | ['b'] => some .broken
+  | ['e'] => some .empty
+  | 'u' :: ds => (String.ofList ds).toNat?.map ProbeLine.uuid
+  | 's' :: ds => (String.ofList ds).toNat?.map ProbeLine.stale
+  | 'x' :: ds => (String.ofList ds).toNat?.map (fun _ => ProbeLine.other)
+  | _ => none
+
 def stepW (f : List String) : Option String :=
   match f with
+  | ["tp", script] =>
+    if script.isEmpty || !script.toList.all (fun c => c == 'f' || c == 's' || c == 'x') then none
+    else
+      -- three consecutive runs of a loop driven by a ticker begin at strictly increasing times
+      -- whatever the handler durations (here: the slowest probe of each round)
+      let dur : Nat → Nat := fun _ => if script.toList.contains 's' then 3 else 0
+      let s0 := periodic 1 0
+      let s1 := max (s0 + dur 0) (s0 + 1)
+      let s2 := max (s1 + dur 1) (s1 + 1)
+      if s0 < s1 && s1 < s2 then pure "rounds>=3" else pure "stalled"
+  | ["pl", st, ib, sg, rg, gu, boot, stale, lines] => do
+    let w := mkWorker (← parseWS st) (← parseIB ib) (← parseUs sg) (← parseUs rg)
+    let sf ← (match stale with
+      | "n" => some none | "y" => some (some 0) | "o" => some (some 120) | _ => none)
+    let ls ← (if lines == "-" then some [] else (lines.splitOn "/").mapM parseLine)
+    pure (showProbe w (← parseUs gu) (probeOfLines (← parseBool boot) ls sf 0))
   | ["tk", st, ib, sg, rg, gu, ago] => do
     let w := mkWorker (← parseWS st) (← parseIB ib) (← parseUs sg) (← parseUs rg)
     let r := probeTick w T0 (← parseUs gu) (← ago.toNat?) 1000
@@ -237,8 +281,37 @@ def showEffect : Effect → String
 
 def joinOr (l : List String) : String := if l.isEmpty then "-" else ",".intercalate l
 
+inductive LcItem where
+  | hold (u : Uuid) | free (u : Uuid) | body (b : Body)
+
+def parseLcItem (s : String) : Option LcItem :=
+  match s.splitOn ":" with
+  | [x] => match x.toList with
+    | 'h' :: ds => (String.ofList ds).toNat?.map LcItem.hold
+    | 'f' :: ds => (String.ofList ds).toNat?.map LcItem.free
+    | _ => none
+  | [x, st, api] => do
+    let (op, ds) ← (match x.toList with
+      | 'l' :: ds => some (Op.lock, ds) | 'c' :: ds => some (Op.cancel, ds)
+      | 'k' :: ds => some (Op.kill, ds) | 'r' :: ds => some (Op.requeue, ds) | _ => none)
+    let u ← (String.ofList ds).toNat?
+    let st ← (if st == "-" then some none else (parseState st).map some)
+    pure (.body ⟨op, u, st, (← parseBool api)⟩)
+  | _ => none
+
 def stepS (f : List String) : Option String :=
   match f with
+  | ["lc", items] => do
+    let items ← (items.splitOn ",").mapM parseLcItem
+    let step (acc : Latch × List String) (it : LcItem) : Latch × List String :=
+      match it with
+      | .hold u => ((uuidLock acc.1 u .kill).2, acc.2 ++ ["-"])
+      | .free u => (uuidUnlock acc.1 u, acc.2 ++ ["-"])
+      | .body b =>
+        let o := runBody acc.1 b
+        (o.latch, acc.2 ++ [s!"{if o.effects.isEmpty then "-" else ".".intercalate (o.effects.map showEffect)}|w{b2s o.wake}"])
+    let r := items.foldl step ([], [])
+    pure s!"{",".intercalate r.2} latch={showUs (sortNat (dedupNat (r.1.map (·.1))))}"
   | ["sw", ents, running, qu, unk, latched] => do
     let ents ← (splitList ents).mapM parseEnt
     let run ← (splitList running).mapM (fun x => match x.splitOn ":" with
@@ -282,6 +355,7 @@ def step (line : String) : String :=
     | "e2e" :: _ => some "e2e-expect final=all instances=0"
     | "sw" :: _ => C15Drv.stepS f
     | "fl" :: _ => C15Drv.stepS f
+    | "lc" :: _ => C15Drv.stepS f
     | _ => C15Drv.stepW f
   match r with
   | some r => r
